@@ -149,6 +149,11 @@ extern int cs_param_fillers;
 /* scalar standards of the recipes are purely real (a 75 ohm load, an
    attenuator): set before cs_recipe */
 extern int cs_real_scalars;
+/* cs_identifiable counts the tie of every correlated parameter to its
+   `other' as one more equation (and unknowns that are only referred to as
+   `other' as unknowns): for sets that are determined only together with
+   these ties */
+extern int cs_ident_priors;
 extern int cs_make_params(vnacal_t *vcp, cs_scenario *sc);
 extern void cs_delete_params(vnacal_t *vcp, cs_scenario *sc);
 
